@@ -545,55 +545,125 @@ def strsOf (j : Json) (k : String) : List String :=
   | .ok (.arr xs) => xs.toList.filterMap (·.getStr?.toOption)
   | _ => []
 
+structure WRo where
+  r : Nat
+  gvk : String
+  fails : List Bool
+
+/-- the model along the events: a reconcile is `watchStart`, then (if it calls `AddWatcherDynamically`) the records of
+    the reconciles that run while the call is in flight, then `watchFinish` -/
+partial def runWatch (ros : List WRo) (evs : List RawEv) (only : Option Nat) : R (List Json) := do
+  let mut w := staticKinds
+  let mut ord : List (Nat × Nat) := []
+  let mut out : List Json := []
+  let dyn (w : List String) : Json := arrJ ((sortStr (w.filter (!staticKinds.contains ·))).map strJ)
+  for e in evs do
+    match e with
+    | .op r ej =>
+      let call ← fStr ej "call"
+      let nestedAll ← (match jopt ej "nested" with | some v => (do (← jarr v).mapM jnat) | none => pure [])
+      let nested := nestedAll.filter fun n => only.isNone || only == some n
+      -- the reconciles of this event in the order in which they do their `Load`
+      let mine := only.isNone || only == some r
+      let seq : List (Nat × Bool) :=   -- (rollout, isTheInFlightOne)
+        if call == "inflight" then (if mine then [(r, true)] else []) ++ nested.map (·, false)
+        else (if mine then [(r, false)] else [])
+      -- the in-flight one starts first and finishes last — unless it makes no call, then it simply runs first
+      let mut pendingRec : Option (Nat × String × Bool) := none   -- (r, gvk, ok) of the call in flight
+      let mut during := 0
+      for (q, inflight) in seq do
+        match ros.find? (·.r == q) with
+        | none => throw s!"isolation: unknown rollout {q}"
+        | some ro =>
+          if watchStart w ro.gvk then
+            let k := (ord.lookup q).getD 0
+            ord := (q, k + 1) :: ord.filter (·.1 != q)
+            let ok := !((ro.fails[k]?).getD false)
+            if inflight then
+              pendingRec := some (q, ro.gvk, ok)
+            else
+              let fin := watchFinish w ro.gvk (if ok then .added else .err)
+              w := fin.1
+              if pendingRec.isSome then during := during + 1
+              out := out ++ [mkObj [("r", natJ q), ("attempts", arrJ [arrJ [strJ ro.gvk, boolJ ok]]), ("registry", dyn w),
+                ("err", boolJ (!ok)), ("panic", boolJ false), ("during", natJ 0)]]
+          else
+            if pendingRec.isSome then during := during + 1
+            out := out ++ [mkObj [("r", natJ q), ("attempts", arrJ []), ("registry", dyn w), ("panic", boolJ false), ("during", natJ 0)]]
+      match pendingRec with
+      | some (q, gvk, ok) =>
+        let fin := watchFinish w gvk (if ok then .added else .err)
+        w := fin.1
+        out := out ++ [mkObj [("r", natJ q), ("attempts", arrJ [arrJ [strJ gvk, boolJ ok]]), ("registry", dyn w),
+          ("err", boolJ (!ok)), ("panic", boolJ false), ("during", natJ during)]]
+      | none => pure ()
+    | _ => pure ()
+  return out
+
+def wrecOf (ros : List WRo) (j : Json) : R WRec := do
+  let r ← fNat j "r"
+  let atts ← (← fArrD j "attempts").mapM fun a => do
+    match (← jarr a)[1]? with
+    | some (Json.bool b) => pure b
+    | _ => throw "isolation: bad attempt record"
+  return { r := r, gvk := ((ros.find? (·.r == r)).map (·.gvk)).getD "", attempts := atts, registry := strsOf j "registry",
+           err := fBoolD j "err" false, during := (← fNat j "during") }
+
 def handleWatch (inp impl : Json) : R OpResult := do
   let ros ← (← fArrD inp "rollouts").mapM fun j => do
-    return ((← fNat j "r"), (← fStr j "apiVersion") ++ ", Kind=" ++ (← fStr j "kind"))
+    let fails ← (← fArrD j "fails").mapM jbool
+    return ({ r := ← fNat j "r", gvk := (← fStr j "apiVersion") ++ ", Kind=" ++ (← fStr j "kind"), fails := fails } : WRo)
   let evs ← rawEvents inp
-  let runW (only : Option Nat) : R Json := do
-    let mut w := staticKinds
-    let mut out : List Json := []
-    for e in evs do
-      match e with
-      | .op r _ =>
-        if only.isSome ∧ only ≠ some r then continue
-        match ros.lookup r with
-        | none => throw s!"isolation: unknown rollout {r}"
-        | some gvk =>
-          let res := reconcileWatch w gvk true
-          w := res.1
-          out := out ++ [mkObj [("r", natJ r), ("added", arrJ (if res.2.1 then [strJ gvk] else [])),
-            ("registry", arrJ ((sortStr (w.filter (!staticKinds.contains ·))).map strJ)), ("panic", boolJ false)]]
-      | _ => pure ()
-    return mkObj [("steps", arrJ out)]
-  let jointJ ← runW none
-  let soloJ ← ros.mapM fun (r, _) => do return setField (← runW (some r)) "r" (natJ r)
   let implJoint ← jget impl "joint"
   let implSolo ← fArrD impl "solo"
   let jsteps ← fArrD implJoint "steps"
-  -- frame on the implementation: the registry only grows, and only by the reconciled rollout's own kind
+  -- the part of `Reconcile` after the watch lines is not this model's subject: whether a reconcile that did not
+  -- fail in `Watch` returned an error is echoed
+  -- (and so is whether that later part panicked: oracle `C19.no_panic`)
+  let echoErr (model : List Json) (im : List Json) : List Json :=
+    (model.zip (im.map some ++ List.replicate model.length none)).map fun (m, i) =>
+      match i with
+      | none => m
+      | some s =>
+        let m := match m.getObjVal? "err" with
+          | .ok _ => m
+          | _ => setField m "err" ((s.getObjVal? "err").toOption.getD .null)
+        if (m.getObjVal? "attempts").toOption.map (·.compress) == some "[]" then
+          setField m "panic" ((s.getObjVal? "panic").toOption.getD .null)
+        else m
+  let mj ← runWatch ros evs none
+  let jointJ := mkObj [("steps", arrJ (echoErr mj jsteps))]
+  let soloJ ← (ros.zip implSolo).mapM fun (ro, s) => do
+    let ms ← runWatch ros evs (some ro.r)
+    return mkObj [("steps", arrJ (echoErr ms (← fArrD s "steps"))), ("r", natJ ro.r)]
+  -- oracles on the implementation's records
+  let recs ← jsteps.mapM (wrecOf ros)
   let frame := Id.run do
     let mut prev : List String := []
     let mut ok := true
-    for s in jsteps do
-      let cur := strsOf s "registry"
-      let r := ((s.getObjVal? "r").toOption.bind (·.getNat?.toOption)).getD 0
-      let own := (ros.lookup r).getD ""
-      ok := ok && isSubset prev cur && (cur.filter (!prev.contains ·)).all (· == own)
-      prev := cur
+    for x in recs do
+      ok := ok && isSubset prev x.registry && (x.registry.filter (!prev.contains ·)).all (· == x.gvk)
+      prev := x.registry
     return ok
-  let unshared (r : Nat) : Bool := match ros.lookup r with
-    | some gvk => staticKinds.contains gvk || !(ros.any fun (r', g) => r' != r && g == gvk)
-    | none => false
-  let same ← (ros.zip implSolo).mapM fun ((r, _), s) => do
-    if !unshared r then return true
-    let proj := fun (x : Json) => mkObj [("added", (x.getObjVal? "added").toOption.getD .null)]
-    return jeq (arrJ ((stepsOf r jsteps).map proj)) (arrJ ((← fArrD s "steps").map proj))
-  let dyn := ros.filter fun (_, g) => !staticKinds.contains g
+  let shared (ro : WRo) : Bool := !staticKinds.contains ro.gvk && ros.any fun o => o.r != ro.r && o.gvk == ro.gvk
+  let same ← (ros.zip implSolo).mapM fun (ro, s) => do
+    let srecs ← (← fArrD s "steps").mapM (wrecOf ros)
+    return watchSolo (shared ro) (establishedSeq staticKinds ro.r recs) (establishedSeq staticKinds ro.r srecs)
+  let dyn := ros.filter fun ro => !staticKinds.contains ro.gvk
+  let anyFail := recs.any fun x => x.attempts.any (!·)
   return { model := mkObj [("joint", jointJ), ("solo", arrJ soloJ)],
-           holds := [("C19.watch_frame", frame), ("C19.same_as_solo", allTrue same)],
-           tags := ["op:watch", s!"n:{ros.length}", s!"dynamicKinds:{(dyn.map (·.2)).eraseDups.length}"] ++
+           holds := [("C19.watch_frame", frame), ("C19.same_as_solo", allTrue same),
+                     ("C19.watch_registered_iff_succeeded", watchRegIffSucc staticKinds recs),
+                     ("C19.watch_failed_not_registered", watchRetried staticKinds recs),
+                     ("C19.watch_error_reported", watchErrReported recs),
+                     ("C19.no_panic", jsteps.all fun s => !fBoolD s "panic" false)],
+           tags := ["op:watch", s!"n:{ros.length}", s!"ctl:{fStrD inp "ctl" "rollout"}", s!"dynamicKinds:{(dyn.map (·.gvk)).eraseDups.length}"] ++
              (if dyn.isEmpty then ["trivial"] else []) ++
-             (if dyn.any (fun (r, _) => !unshared r) then ["sharedDynamicKind"] else []) }
+             (if fStrD inp "ctl" "rollout" == "batchrelease" ∧ !dyn.isEmpty then ["guard:brUnsupportedKindPanic"] else []) ++
+             (if dyn.any shared then ["sharedDynamicKind"] else []) ++
+             (if anyFail then ["watchFailed"] else []) ++
+             (if recs.any (·.during > 0) then ["watchInFlight"] else []) ++
+             (if recs.any (fun x => x.during > 0 && x.attempts.any (!·)) then ["inFlightWatchFailed"] else []) }
 
 /-! ## op race -/
 
